@@ -8,6 +8,8 @@ use crate::oracle::{word_u128, word_u64, AHub, AMsg};
 use crate::probes::{TokenExec, TokenExecClient};
 use crate::world::*;
 use proptest::prelude::*;
+#[allow(unused_imports)]
+use crate::prop_oneof;
 use serde::{Deserialize, Serialize};
 use soroban_sdk::token::TokenClient;
 use soroban_sdk::{Address, BytesN};
